@@ -117,6 +117,7 @@ class Ctx:
         self.assumptions = []
         self.rule = ""
         self.coverage_actions = {}
+        self.deviations = []      # implementation departs from the MODEL although the property's observables hold
         self.findings = [f for f in _load_findings() if f.get("property") == pid]
 
     # ------------------------------------------------------------ TLC
@@ -231,6 +232,14 @@ class Ctx:
             if len(self.distinct) < 2000000:
                 self.distinct.add(key if isinstance(key, (str, int)) else hashlib.md5(repr(key).encode()).hexdigest())
 
+    def deviation(self, what, detail=None):
+        """The implementation is not a behaviour of the (deliberately precise) model, but every observable the property
+        speaks about was checked and holds: recorded in evidence and printed, never a VIOLATION (DESIGN 10.5)."""
+        if len(self.deviations) < 200:
+            self.deviations.append({"what": what[:500], "detail": detail})
+        else:
+            self.deviations.append(None)
+
     def violation(self, what, replay, match=None):
         """Report an implementation behaviour the spec excludes.
 
@@ -263,6 +272,7 @@ class Ctx:
             "rule": self.rule, "samples": self.samples[:6] or ["(none)"],
             "tlc_runs": self.tlc_runs, "action_coverage": self.coverage_actions,
             "known_finding_hits": self.known_hits,
+            "model_deviations": {"count": len(self.deviations), "samples": [d for d in self.deviations[:5] if d]},
         }
         cov.update(self.extra)
         ev = {"property_id": self.pid, "tier": self.tier, "seed": self.seed, "level": self.level,
@@ -276,6 +286,10 @@ class Ctx:
             fid = f.get("id") or f.get("what")
             if f.get("status") == "open" and self.known_hits.get(fid):
                 print("KNOWN-FINDING: property=%s %s [%s; %d hits]" % (self.pid, f["what"], fid, self.known_hits[fid]))
+        if self.deviations:
+            first = next((d for d in self.deviations if d), {"what": ""})
+            print("MODEL-DEVIATION: property=%s %d execution(s) are not behaviours of the model although the property's observables hold, e.g. %s" % (
+                self.pid, len(self.deviations), first["what"][:300]))
         seen = set()
         for what, path in self.violations:
             if path in seen:
